@@ -218,7 +218,7 @@ def configs(tier):
 
 
 def run_config(cfg, tier, seed):
-    return explore_hw(build, Observer, cfg, tier, seed, max_states=3_000_000, max_seconds=1500)
+    return explore_hw(build, Observer, cfg, tier, seed, max_states=6_000_000, max_seconds=6000)
 
 
 def replay(data):
